@@ -276,6 +276,15 @@ func vFP(sb *strings.Builder, v reflect.Value, seen map[uintptr]bool, depth int)
 			vFP(sb, v.Index(i), seen, depth+1)
 			sb.WriteString(",")
 		}
+		if v.Kind() == reflect.Slice && v.Cap() > v.Len() && v.CanAddr() || (v.Kind() == reflect.Slice && v.Cap() > v.Len()) {
+			// the spare capacity of a shared backing array is state too
+			sb.WriteString("|")
+			full := v.Slice(0, v.Cap())
+			for i := v.Len(); i < full.Len(); i++ {
+				vFP(sb, full.Index(i), seen, depth+1)
+				sb.WriteString(",")
+			}
+		}
 		sb.WriteString("]")
 	case reflect.Map:
 		if v.IsNil() {
@@ -352,3 +361,6 @@ func verifRunThreads(raceMsg, stuckMsg string) {
 		}
 	}
 }
+
+// nondetFixed: a nondeterministic string of exactly n bytes.
+func nondetFixed(name string, n int) string { return nondetString(name, n) }
